@@ -145,3 +145,95 @@ Definition arb_case (id : Z) (c : cfg) (es : list event) (os : list obs) (final 
   let oi := forallb (fun a => obs_final_eqb final (snd a)) alts in
   [id; mask; mfin; first; sp; spl; if sp_alts then 1 else 0; if spl_alts then 1 else 0; if oi then 1 else 0;
    Z.of_nat (List.length es)].
+
+(* ---- C03: replay the implementation's own change batches into a shadow ---- *)
+
+(* what the NGINX configuration of a resource is rendered from: everything except the warnings *)
+Definition attrs (r : resource) : resource :=
+  match r with
+  | RIng c => RIng (mkIC (ic_ing c) (ic_master c) (ic_minions c) (ic_valid_hosts c) [] [])
+  | RVS c => RVS (mkVC (vc_vs c) (vc_vsrs c) [] (vc_http_port c) (vc_https_port c)
+                       (vc_http4 c) (vc_http6 c) (vc_https4 c) (vc_https6 c))
+  | RTS c => RTS (mkTC (tc_ts c) (tc_port c) (tc_ipv4 c) (tc_ipv6 c) [])
+  end.
+
+Definition apply_change (sh : smap resource) (c : change) : smap resource :=
+  match c_op c with
+  | Delete => remove (rkey (c_res c)) sh
+  | AddOrUpdate => insert (rkey (c_res c)) (attrs (c_res c)) sh
+  end.
+
+Definition expected_shadow (rs : list resource) : smap resource :=
+  of_list (map (fun r => (rkey r, attrs r)) rs).
+
+Fixpoint deletes_first (cs : list change) (seen_update : bool) : bool :=
+  match cs with
+  | [] => true
+  | c :: r => match c_op c with
+              | Delete => negb seen_update && deletes_first r seen_update
+              | AddOrUpdate => deletes_first r true
+              end
+  end.
+
+(* which attribute of a resource is stale in the shadow: 1 uid, 2 generation/annotations,
+   3 valid hosts, 4 minions, 5 routes, 6 TS port, 7 TS ipv4/ipv6, 8 VS http port/addresses,
+   9 VS https port, 10 VS https addresses, 11 other *)
+Definition meta_diff (a b : meta) : Z :=
+  if negb (String.eqb (m_uid a) (m_uid b)) then 1
+  else if negb (m_gen a =? m_gen b) || negb (m_ann a =? m_ann b) then 2 else 0.
+
+Definition stale_field (have want : resource) : Z :=
+  match have, want with
+  | RIng x, RIng y =>
+      let d := meta_diff (i_meta (ic_ing x)) (i_meta (ic_ing y)) in
+      if negb (d =? 0) then d
+      else if negb (eqb_of smap_bool_dec (ic_valid_hosts x) (ic_valid_hosts y)) then 3
+      else if negb (eqb_of (list_eq_dec minion_dec) (ic_minions x) (ic_minions y)) then 4 else 11
+  | RVS x, RVS y =>
+      let d := meta_diff (v_meta (vc_vs x)) (v_meta (vc_vs y)) in
+      if negb (d =? 0) then d
+      else if negb (eqb_of (list_eq_dec vsroute_dec) (vc_vsrs x) (vc_vsrs y)) then 5
+      else if negb (vc_http_port x =? vc_http_port y) || negb (String.eqb (vc_http4 x) (vc_http4 y)) ||
+              negb (String.eqb (vc_http6 x) (vc_http6 y)) then 8
+      else if negb (vc_https_port x =? vc_https_port y) then 9
+      else if negb (String.eqb (vc_https4 x) (vc_https4 y)) || negb (String.eqb (vc_https6 x) (vc_https6 y)) then 10
+      else 11
+  | RTS x, RTS y =>
+      let d := meta_diff (t_meta (tc_ts x)) (t_meta (tc_ts y)) in
+      if negb (d =? 0) then d
+      else if negb (tc_port x =? tc_port y) then 6
+      else if negb (String.eqb (tc_ipv4 x) (tc_ipv4 y)) || negb (String.eqb (tc_ipv6 x) (tc_ipv6 y)) then 7 else 11
+  | _, _ => 11
+  end.
+
+(* 0 = shadow equals the active set; 30 = an active resource is missing from the shadow;
+   31 = the shadow holds a resource that is not active; 10+f = attribute f is stale *)
+Definition shadow_diff (sh want : smap resource) : Z :=
+  if eqb_of (list_eq_dec (pair_dec string_dec resource_dec)) sh want then 0
+  else
+    match filter_map (fun kv => match lookup (fst kv) sh with
+                                | None => Some 30
+                                | Some have => if eqb_of resource_dec have (snd kv) then None
+                                               else Some (10 + stale_field have (snd kv))
+                                end) want with
+    | d :: _ => d
+    | [] => 31
+    end.
+
+(* returns (first failing step, code); code 40 = a delete after an addOrUpdate in one batch *)
+Fixpoint shadow_run (sh : smap resource) (os : list obs) (i : Z) : Z * Z :=
+  match os with
+  | [] => (0, 0)
+  | o :: r =>
+      if negb (deletes_first (ob_changes o) false) then (i, 40)
+      else
+        let sh' := fold_left apply_change (ob_changes o) sh in
+        let d := shadow_diff sh' (expected_shadow (ob_res o)) in
+        if d =? 0 then shadow_run sh' r (i + 1) else (i, d)
+  end.
+
+Definition c03_case (id : Z) (c : cfg) (es : list event) (os : list obs) (final : obs)
+           (alts : list (list event * obs)) : list Z :=
+  let '(mask, first, s) := compare_run c init es os 1 0 0 in
+  let '(step_, code) := shadow_run [] os 1 in
+  [id; mask; first; step_; code; Z.of_nat (List.length es)].
